@@ -129,10 +129,9 @@ func evalExecBlock(vm *r.VM, execBlock *syntax.ExecBlock, params []r.Element) (r
 	if stmtBlockErr != nil {
 		// 结束循环 / 继续循环 that no loop of THIS body has consumed must not reach a loop of the
 		// caller (leaving the callee's frame behind): it is an exception of this body instead
-		if sig, ok := stmtBlockErr.(*zerr.Signal); ok && (sig.SigType == zerr.SigTypeBreak || sig.SigType == zerr.SigTypeContinue) {
-			stmtBlockErr = value.NewException(sig.Error())
-		}
-		return handleExceptionSignal(vm, blockModule, blockDepth, execBlock.CatchBlock, stmtBlockErr)
+		rtn, err := handleExceptionSignal(vm, blockModule, blockDepth, execBlock.CatchBlock, loopSignalToException(stmtBlockErr))
+		// the same holds for a loop signal raised by the handler block itself
+		return rtn, loopSignalToException(err)
 	}
 
 	// a block without any value-yielding statement (empty, or definitions only) yields 空
@@ -140,6 +139,15 @@ func evalExecBlock(vm *r.VM, execBlock *syntax.ExecBlock, params []r.Element) (r
 		rtnValue = value.NewNull()
 	}
 	return rtnValue, stmtBlockErr
+}
+
+// loopSignalToException - a 结束循环 / 继续循环 signal that leaves a method (or program) body
+// without having been consumed by one of ITS loops becomes an exception
+func loopSignalToException(err error) error {
+	if sig, ok := err.(*zerr.Signal); ok && (sig.SigType == zerr.SigTypeBreak || sig.SigType == zerr.SigTypeContinue) {
+		return value.NewException(sig.Error())
+	}
+	return err
 }
 
 func evalStmtBlock(vm *r.VM, stmtBlock *syntax.StmtBlock) (r.Element, error) {
